@@ -153,6 +153,22 @@ pub fn field_mutants(f: &XzFile) -> Vec<(String, XzFile)> {
             }
         }
     }
+    // the index lists only a prefix of the blocks, or one record too many - count, records, padding, CRC and the
+    // footer's backward size all consistent with each other (a single-field change cannot express this)
+    for k in 0..=recs.len() + 1 {
+        if k == recs.len() {
+            continue;
+        }
+        let mut rs: Vec<(Vec<u8>, Vec<u8>)> = recs.iter().take(k).map(|(a, b)| (mbi(*a), mbi(*b))).collect();
+        if k > recs.len() {
+            let last = recs.last().copied().unwrap_or((12, 0));
+            rs.push((mbi(last.0), mbi(last.1)));
+        }
+        let mut g = f.clone();
+        g.o_index_count = Some(mbi(k as u64));
+        g.o_records = Some(rs);
+        out.push((format!("index rebuilt consistently with {} record(s) for {} block(s)", k, recs.len()), g));
+    }
     {
         let (a, b) = span("index.pad");
         for i in 0..(b - a) {
